@@ -657,3 +657,100 @@ Proof.
 Qed.
 
 End WithHash.
+
+(* ---- reflection: the boolean evaluated on every harness table implies the hypothesis ---- *)
+Lemma insert_z_eq : forall x l, insert_z x l = insert x l.
+Proof. induction l as [|y l IH]; cbn [insert_z insert]; [reflexivity|]. rewrite IH. reflexivity. Qed.
+
+Lemma sort_z_eq : forall l, sort_z l = sort l.
+Proof.
+  unfold sort_z, sort. induction l as [|x l IH]; cbn [fold_right]; [reflexivity|].
+  rewrite IH. apply insert_z_eq.
+Qed.
+
+Lemma nodup_sorted_spec : forall l, sorted l -> nodup_sorted l = true -> NoDup l.
+Proof.
+  induction l as [|x l IH]; intros S H; [constructor|].
+  inversion S as [|? ? S' F]; subst. destruct l as [|y l'].
+  - constructor; [intros [] | constructor].
+  - cbn [nodup_sorted] in H. apply andb_true_iff in H. destruct H as [Hxy H].
+    apply negb_true_iff, Z.eqb_neq in Hxy. constructor; [|apply IH; assumption].
+    intros Hin. inversion S' as [|? ? _ Fy]; subst. rewrite Forall_forall in F, Fy.
+    destruct Hin as [->|Hin]; [congruence|].
+    pose proof (F y (or_introl eq_refl)). pose proof (Fy x Hin). lia.
+Qed.
+
+Lemma nodup_sorted_sort : forall l, nodup_sorted (sort_z l) = true -> NoDup l.
+Proof.
+  intros l H. rewrite sort_z_eq in H. apply nodup_sorted_spec in H; [|apply sort_sorted].
+  apply (NoDup_count_occ Z.eq_dec). intros x. rewrite <- sort_cnt.
+  apply (NoDup_count_occ Z.eq_dec). exact H.
+Qed.
+
+Lemma nodup_app_disjoint : forall (l1 l2 : list Z) x, NoDup (l1 ++ l2) -> In x l1 -> In x l2 -> False.
+Proof.
+  induction l1 as [|a l1 IH]; intros l2 x ND H1 H2; [contradiction|].
+  cbn [app] in ND. inversion ND as [|? ? Hn ND']; subst. destruct H1 as [->|H1].
+  - apply Hn. apply in_or_app. right. exact H2.
+  - exact (IH _ _ ND' H1 H2).
+Qed.
+
+Lemma nodup_app_parts : forall (l1 l2 : list Z), NoDup (l1 ++ l2) -> NoDup l1 /\ NoDup l2.
+Proof.
+  induction l1 as [|a l1 IH]; intros l2 ND; cbn [app] in ND; [split; [constructor | exact ND]|].
+  inversion ND as [|? ? Hn ND']; subst. destruct (IH _ ND') as [N1 N2]. split; [|exact N2].
+  constructor; [|exact N1]. intros Hin. apply Hn. apply in_or_app. left. exact Hin.
+Qed.
+
+Lemma row_in_flat : forall t n i, (i < length (row n t))%nat ->
+  In (nth i (row n t) 0) (flat_map snd t).
+Proof.
+  induction t as [|[k r] t IH]; intros n i Hi; cbn [row] in *; [cbn in Hi; lia|].
+  cbn [flat_map snd]. apply in_or_app. destruct (k =? n); [left; apply nth_In; exact Hi | right; apply IH; exact Hi].
+Qed.
+
+Lemma row_length : forall t R n,
+  forallb (fun kr : Z * list Z => Z.of_nat (length (snd kr)) =? R) t = true ->
+  In n (map fst t) -> Z.of_nat (length (row n t)) = R.
+Proof.
+  induction t as [|[k r] t IH]; intros R n H Hin; [contradiction|].
+  cbn [forallb snd] in H. apply andb_true_iff in H. destruct H as [Hr H].
+  cbn [row]. destruct (k =? n) eqn:E; [apply Z.eqb_eq; exact Hr|].
+  apply IH; [exact H|]. destruct Hin as [Hin|Hin]; [|exact Hin]. cbn in Hin. apply Z.eqb_neq in E. congruence.
+Qed.
+
+Lemma table_inj : forall t n n' i i',
+  NoDup (flat_map snd t) ->
+  (i < length (row n t))%nat -> (i' < length (row n' t))%nat ->
+  nth i (row n t) 0 = nth i' (row n' t) 0 ->
+  In n (map fst t) -> In n' (map fst t) -> NoDup (map fst t) -> n = n' /\ i = i'.
+Proof.
+  induction t as [|[k r] t IH]; intros n n' i i' ND Hi Hi' E Hn Hn' NK; [contradiction|].
+  cbn [flat_map snd] in ND. cbn [map fst] in NK, Hn, Hn'. inversion NK as [|? ? Hk NK']; subst.
+  cbn [row] in *. destruct (k =? n) eqn:E1; destruct (k =? n') eqn:E2.
+  - apply Z.eqb_eq in E1, E2. subst. split; [reflexivity|].
+    apply nodup_app_parts in ND. destruct ND as [ND _]. rewrite (NoDup_nth r 0) in ND. apply (ND i i' Hi Hi' E).
+  - exfalso. apply (nodup_app_disjoint r (flat_map snd t) (nth i r 0) ND); [apply nth_In; exact Hi|].
+    rewrite E. apply row_in_flat. exact Hi'.
+  - exfalso. apply (nodup_app_disjoint r (flat_map snd t) (nth i' r 0) ND); [apply nth_In; exact Hi'|].
+    rewrite <- E. apply row_in_flat. exact Hi.
+  - apply Z.eqb_neq in E1, E2.
+    apply (IH n n' i i'); auto; [apply nodup_app_parts in ND; tauto | |].
+    + destruct Hn as [Hn|Hn]; [congruence | exact Hn].
+    + destruct Hn' as [Hn'|Hn']; [congruence | exact Hn'].
+Qed.
+
+(* Check.prop_ok evaluates [collision_free t && table_ok t R] on the table of every case;
+   when it is true, the hypothesis of the collision-free theorems holds for the hash the
+   model is run with ([vh_of t]) on the universe of that case. *)
+Lemma collision_free_spec_l : forall t R,
+  collision_free t = true -> table_ok t R = true ->
+  collision_free_on (vh_of t) R (fun n => In n (map fst t)).
+Proof.
+  intros t R Hcf Hok. unfold collision_free in Hcf. apply nodup_sorted_sort in Hcf.
+  unfold table_ok in Hok. apply andb_true_iff in Hok. destruct Hok as [Hk Hlen].
+  apply nodup_sorted_sort in Hk.
+  intros n n' i i' Hn Hn' Hi Hi' E. unfold vh_of in E.
+  pose proof (row_length t R n Hlen Hn) as L. pose proof (row_length t R n' Hlen Hn') as L'.
+  destruct (table_inj t n n' (Z.to_nat i) (Z.to_nat i') Hcf) as [En Ei]; auto; try lia.
+Qed.
